@@ -24,6 +24,8 @@ def jobs(prop, tier, seed=0):
             hs = ["h_roundtrip", "h_foreign_reserialise"]
             if s in ("FileMetaData", "RowGroup", "ColumnChunk", "ColumnMetaData", "SchemaElement", "PageHeader"):
                 hs.append("h_copy_reserialise")
+            if s in ("RowGroup", "ColumnChunk", "SchemaElement", "KeyValue"):
+                hs.append("h_dict_eq_distinguishes")
         for h in hs:
             j = ch(prop, F, h, t, FUN, shape=dict(struct=s), env=dict(VERIF_STRUCT=s))
             j["name"] += "[%s]" % s
